@@ -5,10 +5,14 @@ HERE = os.path.dirname(os.path.dirname(os.path.abspath(__file__)))
 CHECKS = {
  "C01": ("property-based testing (Hypothesis scenes) vs construction witnesses and a certified reference GJK",
          "generated-input search over all 100 ordered collider pairs and four scene families against an independent oracle; held on everything explored"),
+ "C02": ("property-based testing (Hypothesis): scenes that are clear by construction (separating plane / common interior point) or by certified reference GJK, all boolean tests + distance query",
+         "generated-input search; every asserted scene carries an independent witness of 'gap >= delta' or 'overlap >= delta'; held on everything explored"),
  "C03": ("property-based testing (Hypothesis): collider specs x direction sequences vs closed-form support values and signed-distance bounds; mesh history vs fresh object",
          "generated-input search over all collider kinds, poses and special directions against closed-form reference support functions; held on everything explored"),
  "C04": ("property-based testing (Hypothesis): AABB bounds vs closed-form support values along +-e_i; RigidBody vs world-frame vertex bounds; overlap consequence on constructed overlapping scenes",
          "generated-input search against a closed-form oracle that decides enclosure and tightness at once; one open known finding (ellipsoid_aabb)"),
+ "C09": ("property-based testing (Hypothesis): C01 scenes vs original GJK (points, consistency, optimality) and Nesterov variants (value); iteration helpers on fresh objects",
+         "generated-input search against construction witnesses / certified reference GJK; two open known findings for use_nesterov_acceleration=True"),
  "C05": ("model-based testing: Hypothesis-generated insertion/query histories vs list model with brute-force overlap; jit and boundscheck modes",
          "generated operation sequences against a reference model with structural invariants after every step; held on everything explored"),
 }
